@@ -280,6 +280,46 @@ def run(ctx):
         if n == 0:
             ctx.anchor("FRONT-KEPT", "clear_but_last/removal", "no removal operation recognised in clear_but_last")
 
+    # ---------------- (d2) the queue object is never replaced ---------------------------------------
+    ctx.rule("QUEUE-OWNER", "UnixTerminal.write_queue is initialised once (struct literal) and afterwards only borrowed for IOQueue/Write/handler calls: "
+                            "never assigned, taken, swapped or replaced — queued bytes leave it only through consume_with and clear_but_last", floor=5)
+    ALLOWED_Q = (r"^common::IOQueue::(is_empty|chunks_count|consume_with|clear_but_last|len|as_slice)$|^<common::IOQueue as std::io::Write>::(write|flush|write_all)$|"
+                 r"^std::io::Write::(write_all|write_fmt|write|flush)$|^<.* as image::ImageHandler>::(draw|erase|handle)$|^image::ImageHandler::(draw|erase|handle)$|"
+                 r"^<encoder::TTYEncoder as encoder::Encoder>::encode$|^encoder::Encoder::encode$")
+    n_q = 0
+    for b in prog.bodies:
+        if not (b.file or "").endswith("unix.rs"):
+            continue
+        for bb, si, st_ in b.assigns():
+            rp = resolve_place(b, st_["place"])
+            if re.search(r"\.write_queue$", rp) and "UnixTerminal" in b.local_ty(st_["place"]["l"]):
+                n_q += 1
+                ctx.instance("QUEUE-OWNER", {"fn": b.path, "assignment": rp, "allowed": False})
+                ctx.violation("QUEUE-OWNER", b.path, "assigned", "UnixTerminal.write_queue is overwritten: everything queued, including the unsent rest of the chunk in "
+                              "transmission, is discarded (a frame is torn)", sites=["%s:%d" % (b.file, st_["line"])])
+            rv = st_["rv"]
+            if rv["k"] == "ref" and re.search(r"\.write_queue$", resolve_place(b, rv["place"])) and "UnixTerminal" in b.local_ty(rv["place"]["l"]):
+                l = st_["place"]["l"]
+                users = [(ub, t) for ub, t in b.calls() if any(a.get("k") in ("copy", "move") and a["place"]["l"] == l and not a["place"]["p"] for a in t["args"])]
+                # a reborrow / unsize coercion of the reference keeps pointing at the queue: follow one level
+                for bb2, si2, s2 in b.assigns():
+                    r2 = s2["rv"]
+                    src_l = None
+                    if r2["k"] == "ref" and r2["place"]["l"] == l:
+                        src_l = s2["place"]["l"]
+                    elif r2["k"] in ("cast", "use") and isinstance(r2.get("a"), dict) and r2["a"].get("k") in ("copy", "move") and r2["a"]["place"]["l"] == l:
+                        src_l = s2["place"]["l"]
+                    if src_l is not None:
+                        users += [(ub, t) for ub, t in b.calls() if any(a.get("k") in ("copy", "move") and a["place"]["l"] == src_l and not a["place"]["p"] for a in t["args"])]
+                for ub, t in users:
+                    n_q += 1
+                    nm = callee_name(t) or "<indirect>"
+                    ok = bool(re.search(ALLOWED_Q, nm)) or (not rv["mut"])
+                    ctx.instance("QUEUE-OWNER", {"fn": b.path, "borrow_used_by": nm, "mutable": rv["mut"], "allowed": ok})
+                    if not ok:
+                        ctx.violation("QUEUE-OWNER", b.path, "borrowed-by-" + nm.split("::")[-1], "a mutable borrow of UnixTerminal.write_queue is handed to %s, which can replace or empty "
+                                      "the queue (mem::take/replace/swap): the chunk in transmission would be discarded" % nm, sites=["%s:%d" % (b.file, t["line"])])
+
     # ---------------- (e) poll flush + loop condition -------------------------------------------
     ctx.rule("POLL-LOOP", "poll flushes write_queue before the loop; loop continues while !write_queue.is_empty()", floor=2)
     cfg = poll.cfg()
